@@ -447,6 +447,135 @@ def generate(repo, out_path):
             A(f"def {pfx}Df (df : α) : α := {emit_x(ex.expr(kw['df'], env))}")
         A("")
 
+
+    # ---------------- construction sites: GaussHermiteQuadrature1D.__init__, _OneDimensionalLikelihood
+    src_q, tree_q = _read(repo, "gpytorch/utils/quadrature.py")
+    qinit = _fn(_cls(tree_q, "GaussHermiteQuadrature1D"), "__init__")
+    stm = [_src(x) for x in qinit.body if not (isinstance(x, ast.Expr) and isinstance(x.value, ast.Constant))]
+    want_init = ["super().__init__()",
+                 "if num_locs is None:\n    num_locs = settings.num_gauss_hermite_locs.value()",
+                 "self.num_locs = num_locs",
+                 "(locations, weights) = self._locs_and_weights(num_locs)",
+                 "self.locations = locations", "self.weights = weights"]
+    if [x.replace("locations, weights =", "(locations, weights) =") for x in stm] != want_init:
+        raise TranslateError("GaussHermiteQuadrature1D.__init__ outside vocabulary: " + " | ".join(stm))
+    if [a.arg for a in qinit.args.args] != ["self", "num_locs"] or _src(qinit.args.defaults[0]) != "None":
+        raise TranslateError("GaussHermiteQuadrature1D.__init__ signature outside vocabulary")
+    A("/-! ### where the rule is constructed -/")
+    A("/-- `GaussHermiteQuadrature1D.__init__`: node count of the constructed object — the argument, or the value of")
+    A("`settings.num_gauss_hermite_locs` read at construction -/")
+    A("def ghqInitNumLocs (numLocs : Option Nat) (setting : Nat) : Nat :=")
+    A("  match numLocs with")
+    A("  | none => setting")
+    A("  | some n => n")
+    src_l, tree_l = _read(repo, "gpytorch/likelihoods/likelihood.py")
+    od = _cls(tree_l, "_OneDimensionalLikelihood")
+    for st in od.body:
+        if isinstance(st, (ast.Assign, ast.AnnAssign)) and "quadrature" in _src(st):
+            _bad(st, "class-level `quadrature` attribute (rule shared between instances)")
+    oinit = _fn(od, "__init__")
+    qas = [st for st in ast.walk(oinit) if isinstance(st, ast.Assign) and _src(st.targets[0]) == "self.quadrature"]
+    if len(qas) != 1 or qas[0] not in oinit.body:
+        raise TranslateError("_OneDimensionalLikelihood.__init__: expected exactly one top-level `self.quadrature = …`")
+    qv = qas[0].value
+    if not (isinstance(qv, ast.Call) and isinstance(qv.func, ast.Name) and qv.func.id == "GaussHermiteQuadrature1D"):
+        _bad(qas[0], "the rule is not constructed per instance by a direct GaussHermiteQuadrature1D(...) call")
+    # the name must be the class imported from utils.quadrature
+    if not any(isinstance(n, ast.ImportFrom) and n.module and n.module.endswith("utils.quadrature")
+               and any(a.name == "GaussHermiteQuadrature1D" and a.asname is None for a in n.names) for n in tree_l.body):
+        raise TranslateError("likelihood.py: GaussHermiteQuadrature1D is not imported from utils.quadrature")
+    if any(isinstance(n, (ast.FunctionDef, ast.ClassDef, ast.Assign)) and
+           (getattr(n, "name", None) == "GaussHermiteQuadrature1D" or
+            (isinstance(n, ast.Assign) and any(_src(t) == "GaussHermiteQuadrature1D" for t in n.targets))) for n in tree_l.body):
+        raise TranslateError("likelihood.py rebinds the name GaussHermiteQuadrature1D")
+    if not qv.args and not qv.keywords:
+        qarg = "none"
+    elif len(qv.args) + len(qv.keywords) == 1:
+        a0 = qv.args[0] if qv.args else qv.keywords[0].value
+        if not (isinstance(a0, ast.Constant) and isinstance(a0.value, int)):
+            _bad(qv, "node-count argument outside vocabulary")
+        qarg = f"some {a0.value}"
+    else:
+        _bad(qv, "constructor arguments outside vocabulary")
+    A("/-- `_OneDimensionalLikelihood.__init__` builds its own rule object, `self.quadrature = GaussHermiteQuadrature1D(<arg>)`,")
+    A("once per likelihood instance: the argument it passes -/")
+    A(f"def likelihoodQuadratureArg : Option Nat := {qarg}")
+    A("")
+
+    # ---------------- _OneDimensionalLikelihood.expected_log_prob / log_marginal
+    def od_expr(node, env):
+        if isinstance(node, ast.Name):
+            if node.id in env:
+                return env[node.id]
+            _bad(node, "unknown variable")
+        if isinstance(node, ast.Lambda):
+            if len(node.args.args) != 1:
+                _bad(node, "lambda with several arguments")
+            return ("lam", od_expr(node.body, dict(env, **{node.args.args[0].arg: ("var", "f")})))
+        if isinstance(node, ast.Call) and isinstance(node.func, ast.Attribute):
+            f = _src(node.func)
+            if f == "self.forward":
+                if not node.args or not isinstance(node.args[0], ast.Name):
+                    _bad(node, "forward call outside vocabulary")
+                return ("cond", od_expr(node.args[0], env))
+            if f == "self.quadrature":
+                if len(node.args) != 2 or _src(node.args[1]) != "function_dist" or node.keywords:
+                    _bad(node, "quadrature call outside vocabulary")
+                lam = od_expr(node.args[0], env)
+                if lam[0] != "lam":
+                    _bad(node, "quadrature is not applied to a lambda")
+                return ("quad", lam[1])
+            recv = od_expr(node.func.value, env)
+            if node.func.attr == "log_prob" and [_src(a) for a in node.args] == ["observations"] and recv[0] == "cond":
+                return ("logp", recv[1])
+            if node.func.attr == "exp" and not node.args:
+                return ("app", "TransFn.exp", recv)
+            if node.func.attr == "log" and not node.args:
+                return ("app", "TransFn.log", recv)
+        _bad(node, "expression outside vocabulary")
+
+    def od_emit(e):
+        if e[0] == "var":
+            return e[1]
+        if e[0] == "logp":
+            return f"(logp {od_emit(e[1])})"
+        if e[0] == "app":
+            return f"({e[1]} {od_emit(e[2])})"
+        if e[0] == "quad":
+            return f"(quad (fun f => {od_emit(e[1])}))"
+        raise TranslateError(f"cannot emit {e!r}")
+
+    def od_method(name):
+        env = {}
+        for st in _fn(od, name).body:
+            if isinstance(st, ast.Assign) and isinstance(st.targets[0], ast.Name):
+                env[st.targets[0].id] = od_expr(st.value, env)
+            elif isinstance(st, ast.Return):
+                return od_expr(st.value, env)
+            else:
+                _bad(st, "statement outside vocabulary")
+        raise TranslateError(f"{name}: no return")
+    A("/-! ### `_OneDimensionalLikelihood`: what is handed to the rule (`quad g` = `self.quadrature(g, function_dist)`,")
+    A("`logp f` = `self.forward(f).log_prob(observations)`) -/")
+    A(f"def oneDimExpectedLogProb (quad : (α → α) → α) (logp : α → α) : α := {od_emit(od_method('expected_log_prob'))}")
+    A(f"def oneDimLogMarginal (quad : (α → α) → α) (logp : α → α) : α := {od_emit(od_method('log_marginal'))}")
+    A("")
+
+    # ---------------- softmax
+    src_s, tree_s = _read(repo, "gpytorch/likelihoods/softmax_likelihood.py")
+    sf = _fn(_cls(tree_s, "SoftmaxLikelihood"), "forward")
+    mix = [st for st in sf.body if isinstance(st, ast.If) and _src(st.test) == "self.mixing_weights is not None"]
+    if len(mix) != 1 or [_src(x) for x in mix[0].body] != ["mixed_fs = function_samples @ self.mixing_weights.t()"] or \
+            [_src(x) for x in mix[0].orelse] != ["mixed_fs = function_samples"]:
+        raise TranslateError("SoftmaxLikelihood.forward: mixing branch outside vocabulary")
+    tail = [_src(x) for x in sf.body[sf.body.index(mix[0]) + 1:]]
+    if tail != ["res = base_distributions.Categorical(logits=mixed_fs)", "return res"]:
+        raise TranslateError("SoftmaxLikelihood.forward: result is not Categorical(logits=mixed_fs): " + " | ".join(tail))
+    A("/-! ### `SoftmaxLikelihood.forward`: logits of the returned Categorical (`matmulT f W` = `f @ W.t()`) -/")
+    A("def softmaxLogits {F W : Type} (matmulT : F → W → F) (f : F) : Option W → F")
+    A("  | some w => matmulT f w")
+    A("  | none => f")
+    A("")
     A("end Gen.Quadrature")
     text = "\n".join(L) + "\n"
     changed = _write(out_path, text)
